@@ -168,6 +168,9 @@ HInit(T, e) ==
    nev      |-> 0,             \* number of ledger events (pickups and charge steps): bounds the rounding error
    sched    |-> IF "sched" \in DOMAIN e THEN [k \in DOMAIN PairsToFn(e.sched) |-> PairsToFn(e.sched)[k]] ELSE <<>>,
    gens     |-> <<>>,          \* what each instruction generator emitted in this step, in generation order
+   reqfile  |-> IF "reqfile" \in DOMAIN e THEN PairsToFn(e.reqfile) ELSE <<>>,      \* request id -> departure time
+   pricefile|-> IF "pricefile" \in DOMAIN e
+                THEN [i \in DOMAIN e.pricefile |-> [e.pricefile[i] EXCEPT !.sts = SeqToSet(@)]] ELSE <<>>,
    steps    |-> 0]
 
 Reports(e, type) == {e.rep[i] : i \in {i \in DOMAIN e.rep : e.rep[i].type = type}}
@@ -302,6 +305,66 @@ C10_Builtin(St, name, instrs) ==
         /\ \/ x.kind = "DispatchTrip" /\ x.tgt \in DOMAIN St.req /\ ~Access(St.req[x.tgt].fleets, St.veh[x.v].fleets)
            \/ x.kind = "DispatchStation" /\ x.tgt \in DOMAIN St.st /\ ~Access(St.st[x.tgt].fleets, St.veh[x.v].fleets)}}
 
+(* C08 - index snapshots logged at step boundaries: each index is exactly the inverse of the positions *)
+IdxMap(ps) == [k \in {ps[i][1] : i \in DOMAIN ps} |-> SeqToSet(ps[CHOOSE i \in DOMAIN ps : ps[i][1] = k][2])]
+InverseOf(f, G(_)) == LET img == {G(f[x]) : x \in DOMAIN f} IN [c \in img |-> {x \in DOMAIN f : G(f[x]) = c}]
+
+C08_Snapshot(T, idx) ==
+  LET par == PairsToFn(idx.parent)
+      P(coll) == [x \in DOMAIN coll |-> coll[x].pos]
+      Chk(name, posf, lc, sr) ==
+           (IF IdxMap(lc) # InverseOf(posf, LAMBDA c : c) THEN {V("C08", "location_index_exact", name, name)} ELSE {})
+        \cup (IF \E x \in DOMAIN posf : posf[x] \notin DOMAIN par THEN {V("C08", "search_index_exact", "unknown_cell", name)}
+              ELSE IF IdxMap(sr) # InverseOf(posf, LAMBDA c : par[c]) THEN {V("C08", "search_index_exact", name, name)} ELSE {})
+  IN Chk("vehicles", P(T.veh), idx.vloc, idx.vsrch) \cup Chk("requests", P(T.req), idx.rloc, idx.rsrch)
+     \cup Chk("stations", P(T.st), idx.sloc, idx.ssrch) \cup Chk("bases", P(T.bs), idx.bloc, idx.bsrch)
+
+\* stations and bases never change location
+C08_Immobile(B, T) ==
+     {V("C08", "stations_never_move", "station", x) : x \in {x \in DOMAIN B.st \cap DOMAIN T.st : B.st[x].pos # T.st[x].pos}}
+  \cup {V("C08", "bases_never_move", "base", x) : x \in {x \in DOMAIN B.bs \cap DOMAIN T.bs : B.bs[x].pos # T.bs[x].pos}}
+
+(* C11 - timed inputs take effect exactly once, at the right step.  The tables come from the scenario's own files.   *)
+(* Step k begins at T.now; a request is admitted in the first step that begins AFTER its departure time unless it has *)
+(* expired by then; a waiting request is cancelled in the first step that begins at or after departure + timeout;     *)
+(* a price row is in force from the first step that begins after its time stamp, on the stations and plug it names.   *)
+C11_Admit(Hh, B, T) ==
+  LET now == T.now  C == Hh.cancel  dep == Hh.reqfile
+      expected == {r \in DOMAIN dep : dep[r] < now /\ (Hh.steps = 0 \/ dep[r] >= now - Hh.dt) /\ dep[r] + C > now}
+      actual == DOMAIN T.req \ DOMAIN B.req
+  IN {V("C11", "admitted_in_first_step_after_departure", "missing", r) : r \in expected \ actual}
+     \cup {V("C11", "admitted_in_first_step_after_departure",
+             IF r \notin DOMAIN dep THEN "unknown_request" ELSE IF dep[r] >= now THEN "before_departure"
+             ELSE IF dep[r] + C <= now THEN "already_expired" ELSE "late_or_twice", r) : r \in actual \ expected}
+
+C11_Cancel(Hh, B, T) ==
+  LET now == T.now  C == Hh.cancel
+      expected == {r \in DOMAIN B.req : now >= B.req[r].dep + C}
+      actual == DOMAIN B.req \ DOMAIN T.req
+  IN {V("C11", "cancelled_at_timeout", "late", r) : r \in expected \ actual}
+     \cup {V("C11", "cancelled_at_timeout", "early", r) : r \in actual \ expected}
+
+PriceInForce(Hh, s, p, now) ==
+  LET rows == {i \in DOMAIN Hh.pricefile : Hh.pricefile[i].time < now /\ s \in Hh.pricefile[i].sts /\ Hh.pricefile[i].plug = p} IN
+  IF rows = {} THEN [price |-> 0, kind |-> "default"]
+  ELSE LET i == CHOOSE i \in rows : \A j \in rows : j <= i IN [price |-> Hh.pricefile[i].price, kind |-> Hh.pricefile[i].kind]
+
+\* rows of the current window that name a plug type but not this station: the kind of region they use (for the signature)
+C11_Prices(Hh, T) ==
+  {V("C11", "price_in_force", PriceInForce(Hh, x[1], x[2], T.now).kind, x[1]) :
+     x \in {x \in {<<s, p>> : s \in DOMAIN T.st, p \in UNION {DOMAIN T.st[ss].pl : ss \in DOMAIN T.st}} :
+              x[2] \in DOMAIN T.st[x[1]].pl /\ T.st[x[1]].pl[x[2]].price # PriceInForce(Hh, x[1], x[2], T.now).price}}
+
+C11_PriceFrame(B, T) ==
+  {V("C11", "prices_change_only_by_price_update", "station", s) : s \in {s \in DOMAIN B.st \cap DOMAIN T.st :
+      \E p \in DOMAIN B.st[s].pl \cap DOMAIN T.st[s].pl : B.st[s].pl[p].price # T.st[s].pl[p].price}}
+
+C11_Step(Hh, B, T, e) ==
+  IF e.ev = "pre" /\ e.fn = "UpdateRequestsFromFile" THEN C11_Admit(Hh, B, T) \cup C11_PriceFrame(B, T)
+  ELSE IF e.ev = "pre" /\ e.fn = "CancelRequests" THEN C11_Cancel(Hh, B, T) \cup C11_PriceFrame(B, T)
+  ELSE IF e.ev = "pre" /\ e.fn = "ChargingPriceUpdate" THEN C11_Prices(Hh, T)
+  ELSE C11_PriceFrame(B, T)
+
 MonStep(Hh, B, T, e) ==
   LET upd == e.ev = "update" /\ e.v \in DOMAIN B.veh /\ e.v \in DOMAIN T.veh
       Hn  == HNext(Hh, B, T, e)
@@ -323,6 +386,8 @@ MonStep(Hh, B, T, e) ==
   \cup (IF Has("C06") THEN (IF upd THEN C06_Move(B, T, e.v, Hh.dt) \cup C06_Frame(B, T, TRUE, e.v) \cup C06_Arrived(T, Hn.arrived, e.v)
                             ELSE C06_Frame(B, T, FALSE, "")) ELSE {})
   \cup (IF Has("C15") THEN C15_Step(B, T, e.ev, Hh.dt) ELSE {})
+  \cup (IF Has("C11") THEN C11_Step(Hh, B, T, e) ELSE {})
+  \cup (IF Has("C08") THEN C08_Immobile(B, T) \cup (IF "idx" \in DOMAIN e THEN C08_Snapshot(T, e.idx) ELSE {}) ELSE {})
   \cup (IF Has("C20") /\ e.ev = "drivers" THEN C20_Drivers(B, T, Hh.sched, Reports(e, "driver_schedule_event")) ELSE {})
   \cup (IF Has("C20") /\ e.ev = "gen" /\ e.name = "Dispatcher" THEN C20_Dispatch(B, e.instrs) ELSE {})
   \cup (IF e.ev = "end"
